@@ -116,23 +116,34 @@ def outline_state(ctx):
                3, "the active outline of a framer")
     writers_in(ctx, "T4-actives", "active", {FR + "Framer.__init__", FR + "Framer.activate", FR + "Framer.deactivate"},
                3, "the active frame of a framer")
-    # callers of change with two positional args (Framer.change signature)
+    # callers of Framer.change(actives, human): arguments bound by position or keyword, and read by value (a frame hoisted
+    # into a local is the same argument)
+    chg = ctx.fn("framing", "Framer.change")
+    pnames = [a.arg for a in chg.args.args][1:3]
     sites = []
     for m in ctx.repo.modules.values():
         if m.is_test:
             continue
         for n in ast.walk(m.tree):
             if isinstance(n, ast.Call) and isinstance(n.func, ast.Attribute) and n.func.attr == "change" \
-                    and len(n.args) == 2 and not n.keywords:
+                    and len(n.args) + len(n.keywords) == 2 and all(k.arg in pnames for k in n.keywords) \
+                    and dotted(n.func.value) in ("self", "framer", "self.framer", "main.framer"):
                 sites.append(n)
     ctx.floor("T5-change:callers", len(sites), 2)
+    from ..model import enclosing_func
     for c in sites:
         q = func_qual_of(ctx.repo, c)
-        args = (src(c.args[0]), src(c.args[1]))
+        bound = dict(zip(pnames, c.args))
+        bound.update({k.arg: k.value for k in c.keywords})
+        fn_ = enclosing_func(c)
+        W = FuncView(ctx, fn_)
+        cn_ = [n for n, cc in W.calls(("self.change", "framer.change", "self.framer.change", "main.framer.change")) if cc is c]
+        at = cn_[0] if cn_ else None
+        args = tuple(src(W.sym(bound[p], at)) if at is not None and p in bound else src(bound.get(p)) for p in pnames)
         if q == FR + "Framer.reactivate":
             ok = args == ("self.active.outline", "self.active.human") and dotted(c.func.value) == "self"
         elif q == "ioflo/base/acting.py:Suspender.action":
-            ok = args == ("main.head", "main.headHuman") and dotted(c.func.value) == "framer"
+            ok = args == ("main.head", "main.headHuman") and src(W.sym(c.func.value, at)) in ("framer", "main.framer")
         else:
             ok = False
         ctx.check(ok, "T5-change", c, "%s in %s" % (src(c), q),
@@ -266,7 +277,8 @@ def transition_order(ctx):
             c = [c for n, c in V.calls(pat)][0]
             return c.args[0] if c.args else (c.keywords[0].value if c.keywords else None)
         ctx.check(dotted(arg0("framer.exit")) == EX, "T3-trans", ex[0].ast, "framer.exit(%s)" % EX, "exit gets the exits list")
-        a = arg0("framer.rexit")
+        rxn = [n for n, c_ in V.calls("framer.rexit")][0]
+        a = V.sym(arg0("framer.rexit"), rxn)        # by value: `rexits = reexens[:]; framer.rexit(rexits)` is the same copy
         is_copy = (isinstance(a, ast.Subscript) and dotted(a.value) == RE and isinstance(a.slice, ast.Slice)
                    and a.slice.lower is None and a.slice.upper is None) or \
             (isinstance(a, ast.Call) and call_name(a) == "list" and dotted(a.args[0]) == RE)
@@ -286,7 +298,8 @@ def transition_order(ctx):
     a0 = V.sym(exc.args[0], exen[0]) if exc.args else None
     has_outline = a0 is not None and any(isinstance(x, ast.Attribute) and x.attr == "outline" for x in ast.walk(a0))
     has_actives = a0 is not None and any(isinstance(x, ast.Attribute) and x.attr == "actives" for x in ast.walk(a0))
-    ctx.check(has_outline and not has_actives, "T9-entered", exc, src(exc),
+    ctx.check(has_outline and not has_actives, "T9-entered", exc,
+              "%s(%s)" % (src(exc.func), ", ".join([src(a0)] + [src(a) for a in exc.args[1:]])) if a0 is not None else src(exc),
               "the current outline handed to ExEn is `.actives`, which a running conditional auxiliary "
               "truncates to its main frame's head: when a transition fires in a frame at or above that main "
               "frame, the frames suspended below it were entered but are never exited")
@@ -317,9 +330,21 @@ def _exen_shape(ctx, fe):
     itv = V.sym(it, h)
     okb = isinstance(itv, ast.Call) and call_name(itv) == "range" and len(itv.args) == 1 and \
         src(itv.args[0]).replace(" ", "").replace("far.outline", "fars") in ("min(len(nears),len(fars))", "min(len(fars),len(nears))")
-    ctx.check(okb and isinstance(h.ast.target, ast.Name), "T9-ExEn", h.ast, "for %s in %s" % (src(h.ast.target), src(itv)),
+    elem = {}
+    tg = h.ast.target
+    if not okb and isinstance(itv, ast.Call) and call_name(itv) == "enumerate" and len(itv.args) == 1 and \
+            isinstance(itv.args[0], ast.Call) and call_name(itv.args[0]) == "zip" and \
+            [src(a).replace("far.outline", "fars") for a in itv.args[0].args] == ["nears", "fars"] and \
+            isinstance(tg, ast.Tuple) and len(tg.elts) == 2 and isinstance(tg.elts[0], ast.Name) and \
+            isinstance(tg.elts[1], ast.Tuple) and len(tg.elts[1].elts) == 2 and all(isinstance(e, ast.Name) for e in tg.elts[1].elts):
+        # for i, (near, other) in enumerate(zip(nears, fars)): zip stops at the common length; the element names stand for
+        # nears[i] / fars[i]
+        okb = True
+        elem = {tg.elts[1].elts[0].id: "nears[%s]" % tg.elts[0].id, tg.elts[1].elts[1].id: "fars[%s]" % tg.elts[0].id}
+        tg = tg.elts[0]
+    ctx.check(okb and isinstance(tg, ast.Name), "T9-ExEn", h.ast, "for %s in %s" % (src(h.ast.target), src(itv)),
               "the comparison must run over the common length of both outlines")
-    i = h.ast.target.id if isinstance(h.ast.target, ast.Name) else "i"
+    i = tg.id if isinstance(tg, ast.Name) else "i"
     fars = [n for n in V.cfg.nodes if isinstance(n.ast, ast.Assign) and dotted(n.ast.targets[0]) == "fars"]
     ctx.check(bool(fars) and src(fars[0].ast.value) == "far.outline", "T9-ExEn", fe, "fars = far.outline",
               "the target outline is the target frame's full outline")
@@ -327,7 +352,13 @@ def _exen_shape(ctx, fe):
     V.need(tests, "split test in ExEn loop")
     t = tests[0].ast.test
     want = {"nears[%s] is far" % i, "nears[%s] is not fars[%s]" % (i, i)}
-    got = {src(v) for v in t.values} if isinstance(t, ast.BoolOp) and isinstance(t.op, ast.Or) else {src(t)}
+    def spell(v):
+        class R(ast.NodeTransformer):
+            def visit_Name(self, n):
+                return ast.parse(elem[n.id], mode="eval").body if n.id in elem else n
+        from ..inline import clone
+        return src(R().visit(clone(v)))
+    got = {spell(v) for v in t.values} if isinstance(t, ast.BoolOp) and isinstance(t.op, ast.Or) else {spell(t)}
     ctx.check(got == want, "T9-ExEn", t, src(t),
               "the split point is the first index where the current frame is the target itself (forced "
               "re-entry) or differs from the target outline, compared by identity")
@@ -424,18 +455,18 @@ def entry_guards(ctx):
     ctx.rule("T4-clocks", "timer/counter restart only under `if enters`; clock fields written only by the clock methods")
     ta = ctx.fn("acting", "Transiter.action")
     V = FuncView(ctx, ta)
-    chk = V.need([n for n in V.tests(lambda t: isinstance(t, ast.UnaryOp) and isinstance(t.op, ast.Not) and
-                                     isinstance(t.operand, ast.Call) and suffix_match(call_name(t.operand), "framer.checkEnter"))],
-                 "`if not framer.checkEnter(...)` test")
-    c = chk[0]
+    chk = V.need(V.ptests(lambda t: isinstance(t, ast.Call) and suffix_match(call_name(t), "framer.checkEnter")),
+                 "test of framer.checkEnter(...)")
+    c, passed = chk[0]                       # `passed`: the edge on which the check succeeded
+    refused = "F" if passed == "T" else "T"
     effects = []
     for pat in ("framer.exit", "framer.rexit", "framer.renter", "framer.enter", "framer.activate"):
         effects += V.need(V.call_nodes(pat), pat)
     effects += V.need(loops_over(V, "self._tracts"), "tracts loop")
     for e in effects:
-        ctx.check(V.dominated_by_edge([e], c, "F"), "T1-guard", e.ast, "%s guarded by checkEnter" % V.cfg.describe(e.id),
+        ctx.check(V.dominated_by_edge([e], c, passed), "T1-guard", e.ast, "%s guarded by checkEnter" % V.cfg.describe(e.id),
                   "a refused transition must run none of its exit, re-exit, re-enter, enter or transit actions")
-    tsucc = [b for b, lab in V.cfg.succ[c.id] if lab == "T"]
+    tsucc = [b for b, lab in V.cfg.succ[c.id] if lab == refused]
     r = V.cfg.reachable(tsucc[0]) if tsucc else set()
     rets = [i for i in r if V.cfg.nodes[i].kind == "return"]
     ok = bool(rets) and all(V.cfg.nodes[i].ast.value is None or (isinstance(V.cfg.nodes[i].ast.value, ast.Constant) and
@@ -445,7 +476,7 @@ def entry_guards(ctx):
     stores = [n for n in V.cfg.nodes if any(isinstance(x, (ast.Attribute, ast.Subscript)) and isinstance(x.ctx, (ast.Store, ast.Del))
                                             for x in V.cfg.walk_node(n))]
     for s in stores:
-        ctx.check(V.dominated_by_edge([s], c, "F"), "T1-guard", s.ast, src(s.ast)[:80],
+        ctx.check(V.dominated_by_edge([s], c, passed), "T1-guard", s.ast, src(s.ast)[:80],
                   "no framer/frame state may be written before the entry check passed")
     ctx.ok("T1-guard", ta, "%d attribute/item stores in Transiter.action, all after the guard" % len(stores))
     # Framer.checkEnter
@@ -515,15 +546,15 @@ def entry_guards(ctx):
     sa = ctx.fn("acting", "Suspender.action")
     S = FuncView(ctx, sa)
     ea = S.need(S.call_nodes("aux.enterAll"), "aux.enterAll() in Suspender.action")
-    nt = S.need(S.tests(lambda t: isinstance(t, ast.UnaryOp) and isinstance(t.op, ast.Not) and isinstance(t.operand, ast.Call)
-                        and dotted(t.operand.func) == "act"), "`if not act()` needs test")
+    nt = S.need(need_tests(S), "`if not act()` needs test")
     ot = S.need(S.tests(lambda t: isinstance(t, ast.BoolOp) and isinstance(t.op, ast.And) and
                         {src(v) for v in t.values} == {"aux.main", "aux.main is not self._act.frame"}), "aux ownership test")
     st = S.need(S.tests(lambda t: src(t) == "not aux.checkStart()"), "`if not aux.checkStart()`")
     nl = S.need(loops_over(S, "needs"), "needs loop")
     ok = S.dominated_by_edge(ea, ot[0], "F") and S.dominated_by_edge(ea, st[0], "F") and \
         not (S.cfg.reachable(S.cfg.entry.id, removed_edges=S.cfg.edges_from(nl[0].id, "done")) & set(S.ids(ea))) and \
-        S.dominated_by_edge([nl[0]], S.need(S.tests(lambda t: src(t) == "aux.done"), "`if aux.done`")[0], "T")
+        all(nl[0].id not in S.cfg.reachable(g.id) and g.id not in S.cfg.reachable(nl[0].id)
+            for g in S.need(S.call_nodes("aux.segue"), "aux.segue()"))      # conditions belong to the not-running case only
     ctx.check(ok, "T1-susp", sa, "aux.enterAll() only after needs, ownership test and checkStart passed",
               "a conditional auxiliary may start only when its conditions hold, it is not owned by another frame, "
               "and its first-frame entry conditions hold")
@@ -741,11 +772,6 @@ def suspender(ctx):
               "computing a transition from the full outline while a conditional aux has truncated .actives lets a clause of a frame "
               "above the main frame transit to a frame *below* it: activate(far) restores the full outline, the lower frame is "
               "entered and recurs every tick although the aux is still running (the suspender truncates only once, at aux start)")
-    dt = S.need(S.tests(lambda t: src(t) == "aux.done"), "`if aux.done` tests")
-    ndt = S.need(S.tests(lambda t: src(t) == "not aux.done"), "`if not aux.done` test")
-    first = dt[0]
-    inner = [t for t in dt if t is not first]
-    S.need(inner, "inner `if aux.done` after the first run")
     ea = S.need(S.call_nodes("aux.enterAll"), "aux.enterAll()")
     rc = S.need(S.call_nodes("aux.recur"), "aux.recur()")
     sg = S.need(S.call_nodes("aux.segue"), "aux.segue()")
@@ -759,45 +785,65 @@ def suspender(ctx):
                 "resumes the wrong frames when the active leaf is not on the main frame's primary chain")
         return
     nl = S.need(loops_over(S, "needs"), "needs loop")
+    # Regions, independent of how the two cases are spelled (`if aux.done: .. if not aux.done: ..`, or one test with an
+    # early return):  tests on aux.done evaluated before the aux has run this tick are ENTRY tests; a node is in the
+    # inactive region when it runs only if aux.done held at entry, in the active region when it runs only if it did not.
+    # Tests on aux.done after aux.recur() are COMPLETION tests.
+    dts = S.need(S.ptests("aux.done"), "tests on aux.done")
+    runs = ea + sg + rc
+
+    def after_run(t):
+        return any(S.dominated([t], [r]) for r in runs)
+    entry = [(t, lab) for t, lab in dts if not after_run(t)]
+    compl = [(t, lab) for t, lab in dts if after_run(t)]
+    S.need(entry, "entry test on aux.done (is the conditional aux running?)")
+    S.need(compl, "completion tests on aux.done after aux.recur()")
+
+    def other(lab):
+        return "F" if lab == "T" else "T"
+
+    def inact(n):
+        return any(S.dominated_by_edge([n], t, lab) for t, lab in entry)
+
+    def act(n):
+        return any(S.dominated_by_edge([n], t, other(lab)) for t, lab in entry)
+    c_in = [(t, lab) for t, lab in compl if inact(t)]
+    c_ac = [(t, lab) for t, lab in compl if act(t)]
+    S.need(c_in, "`if aux.done` after first run in the inactive region")
+    S.need(c_ac, "completion test in the active region")
+    t1, l1 = c_in[0]
+    t3, l3 = c_ac[0]
     # inactive region
-    in_first = [t for t in inner if S.dominated_by_edge([t], first, "T")]
-    S.need(in_first, "`if aux.done` after first run in the inactive region")
-    t1 = in_first[0]
-    rc1 = [n for n in rc if S.dominated_by_edge([n], first, "T")]
-    ok = S.dominated_by_edge(ea, first, "T") and bool(rc1) and S.dominated(rc1, ea) and S.dominated([t1], rc1)
+    rc1 = [n for n in rc if inact(n)]
+    ok = all(inact(n) for n in ea) and bool(rc1) and S.dominated(rc1, ea) and S.dominated([t1], rc1)
     ctx.check(ok, "T3-susp", sa, "inactive: enterAll -> recur -> completion test", "a conditional aux whose conditions hold is entered and run once")
-    ctx.check(S.dominated_by_edge(ch, t1, "F") and S.dominated_by_edge(ch, first, "T") and len(ch) == 1, "T3-susp", ch[0].ast,
+    ctx.check(all(S.dominated_by_edge([c], t1, other(l1)) and inact(c) for c in ch) and len(ch) == 1, "T3-susp", ch[0].ast,
               "truncate (framer.change(main.head, ...)) only when the aux did not complete in its first run",
               "frames below the main frame are suspended only while the conditional aux keeps running")
-    d1 = [d for d in de if S.dominated_by_edge([d], t1, "T")]
-    tsucc = [b for b, lab in cfg.succ[t1.id] if lab == "T"]
+    d1 = [d for d in de if S.dominated_by_edge([d], t1, l1)]
+    tsucc = [b for b, lab in cfg.succ[t1.id] if lab == l1]
     r = cfg.reachable(tsucc[0]) if tsucc else set()
     rets = [cfg.nodes[i] for i in r if cfg.nodes[i].kind == "return"]
     ok = bool(d1) and bool(rets) and all(x.ast.value is None or (isinstance(x.ast.value, ast.Constant) and x.ast.value.value is None) for x in rets) \
         and not (set(S.ids(ch)) & r)
     ctx.check(ok, "T3-susp", t1.ast, "completed in first run => deactivate(aux); return None (no truncation)",
               "an aux that completes in its first run is fully exited and does not suspend anything")
-    fsucc = [b for b, lab in cfg.succ[t1.id] if lab == "F"]
-    r = cfg.reachable(fsucc[0], removed_nodes=[n.id for n in ndt]) if fsucc else set()
+    fsucc = [b for b, lab in cfg.succ[t1.id] if lab == other(l1)]
+    r = cfg.reachable(fsucc[0], removed_nodes=[t.id for t, _ in entry if t.id != t1.id]) if fsucc else set()
     rets = [cfg.nodes[i] for i in r if cfg.nodes[i].kind == "return"]
     ctx.check(bool(rets) and all(dotted(x.ast.value) == "aux" for x in rets), "T3-susp", t1.ast,
               "still running => return aux (truthy: later preacts and lower frames skipped)",
               "while the conditional aux runs, the main frame's later transition clauses are skipped")
     # active region
-    t2 = ndt[0]
-    sg2 = [n for n in sg if S.dominated_by_edge([n], t2, "T")]
-    rc2 = [n for n in rc if S.dominated_by_edge([n], t2, "T")]
+    sg2 = [n for n in sg if act(n)]
+    rc2 = [n for n in rc if act(n)]
     ok = bool(sg2) and bool(rc2) and S.dominated(rc2, sg2)
-    ok = ok and not any(S.dominated_by_edge([nl[0]], t2, "T") for _ in [0])
-    ok = ok and not (cfg.reachable([b for b, lab in cfg.succ[t2.id] if lab == "T"][0]) & {nl[0].id})
-    ctx.check(ok, "T3-active", t2.ast, "active: aux.segue(); aux.recur(); needs not re-evaluated",
+    ok = ok and not act(nl[0]) and not any(nl[0].id in cfg.reachable(n.id) for n in sg2)
+    ctx.check(ok, "T3-active", sg2[0].ast if sg2 else sa, "active: aux.segue(); aux.recur(); needs not re-evaluated",
               "a running conditional aux runs every tick regardless of its conditions")
-    in2 = [t for t in inner if S.dominated_by_edge([t], t2, "T")]
-    S.need(in2, "completion test in the active region")
-    t3 = in2[0]
-    d2 = [d for d in de if S.dominated_by_edge([d], t3, "T")]
-    ra2 = [x for x in ra if S.dominated_by_edge([x], t3, "T")]
-    tsucc = [b for b, lab in cfg.succ[t3.id] if lab == "T"]
+    d2 = [d for d in de if S.dominated_by_edge([d], t3, l3)]
+    ra2 = [x for x in ra if S.dominated_by_edge([x], t3, l3)]
+    tsucc = [b for b, lab in cfg.succ[t3.id] if lab == l3]
     r = cfg.reachable(tsucc[0]) if tsucc else set()
     rets = [cfg.nodes[i] for i in r if cfg.nodes[i].kind == "return"]
     enter_calls = [i for i in r if any(isinstance(x, ast.Call) and suffix_match(call_name(x), ("enter", "enterAll", "framer.activate"))
@@ -807,7 +853,7 @@ def suspender(ctx):
     ctx.check(ok, "T3-active", t3.ast, "on completion: deactivate(aux); framer.reactivate(); return None",
               "when the conditional aux completes it is exited and the suspended frames resume in the same tick "
               "without being re-entered")
-    ctx.check(all(S.dominated_by_edge([x], t3, "T") for x in ra), "T3-active", sa, "reactivate only on the completing path",
+    ctx.check(all(S.dominated_by_edge([x], t3, l3) and act(x) for x in ra), "T3-active", sa, "reactivate only on the completing path",
               "the full outline is restored only when the aux has completed")
     # argument of change
     c = [c for n, c in S.calls("framer.change")][0]
@@ -840,3 +886,10 @@ def act_clone_preserves_class(ctx, rule):
         ok = ok and good
     ctx.check(ok, rule, ac, "Act.clone returns a copy of the receiver's own class: %s" % shapes,
               "the clone of a negated need (Nact) built as a plain Act evaluates the condition un-negated in every cloned framer")
+
+
+def need_tests(V, iterable="needs"):
+    """`if not <x>():` tests where <x> is the loop variable of the loop over `iterable` (whatever it is called)"""
+    names = {dotted(h.ast.target) for h in loops_over(V, iterable) if isinstance(h.ast.target, ast.Name)}
+    return V.tests(lambda t: isinstance(t, ast.UnaryOp) and isinstance(t.op, ast.Not) and isinstance(t.operand, ast.Call)
+                   and not t.operand.args and dotted(t.operand.func) in names)
